@@ -35,8 +35,10 @@ TRUSTED = [
     "(real `_box` on one side, real `_unbox` on the other) that bootstraps a pair without a blocking round trip",
 ]
 ASSUMPTIONS = [
-    "lent objects are of builtin types (set, list, function, dict) so that creating a proxy needs no synchronous "
-    "HANDLE_INSPECT round trip under manual delivery; the counting logic does not depend on the type",
+    "lent objects under manual delivery: instances of builtin types (set, list, dict, function), builtin TYPE objects (list, "
+    "dict) and classes created at run time; for the latter the proxy's netref class is prepared with the real "
+    "get_methods/class_factory instead of the blocking HANDLE_INSPECT round trip, and one baton-mode scenario per run lends "
+    "a run-time class, a builtin type and an instance with the real round trip; instances of user classes occur only there",
     "close is modelled as atomic: the harness lets the other side notice (one or two serve attempts) before comparing; "
     "the order in which the two ends reach `closed` is C11's subject",
     "one direction of lending is modelled (owner A, peer B); the other direction is the same code with roles exchanged",
@@ -49,6 +51,26 @@ EXPLANATION = ("Theorems: the counting invariant (stored+1 = references in fligh
                "histories. The crossing race is replayed as an example.")
 
 N_OBJS = 3
+
+# what is lent.  The machine does not care what an object is; the code does in a few places (`get_id_pack` gives a
+# class the instance id 0, `_netref_factory` takes another path for it, a finalizer could treat it differently).
+KIND_MAKERS = {
+    "set": lambda: {1, 2}, "list": lambda: [1, 2], "func": lambda: (lambda: 0), "dict": lambda: {"a": 1},
+    "type_list": lambda: list, "type_dict": lambda: dict,            # builtin TYPE objects: id pack (name, id(cls), 0)
+    "dynclass": lambda: type("Dyn", (object,), {"x": 1}),            # a class created at run time
+}
+IMMORTAL = ("type_list", "type_dict")                                 # builtin types never die: no liveness claim
+PALETTES = {
+    1: [["set"], ["type_list"], ["dynclass"], ["list"], ["func"], ["type_dict"]],
+    2: [["set", "list"], ["type_list", "dynclass"], ["dynclass", "func"], ["dict", "type_dict"]],
+    3: [["set", "list", "func"], ["type_list", "dynclass", "set"], ["dynclass", "dict", "type_dict"],
+        ["func", "type_list", "dynclass"]],
+}
+
+
+def palette(n, i):
+    ps = PALETTES[n]
+    return ps[i % len(ps)]
 
 
 # ---------------------------------------------------------------------------------------------- the real world
@@ -69,7 +91,7 @@ def to_tuple(shape):
 class World:
     """owner A and peer B, both real Connections; B's application = `held` + `results`"""
 
-    def __init__(self, n=N_OBJS):
+    def __init__(self, n=N_OBJS, kinds=None, class_liveness=True):
         import rpyc
         import simnet
         from rpyc.core import brine, consts, netref
@@ -80,8 +102,11 @@ class World:
         self._cm.__enter__()
         self.ca, self.cb = self.net.connect_pair(compress=False)
         self.n = n
-        makers = [lambda: {1, 2}, lambda: [1, 2], lambda: (lambda: 0), lambda: {"a": 1}]
-        self.objs = [makers[k % 4]() for k in range(n)]
+        self.kinds = list(kinds) if kinds else palette(n, 0)
+        # a class is cyclic garbage: believing it dead takes a full collection (milliseconds); the correspondence asks for
+        # that on a sample of its histories, the oracle and replays always (the table checks are made on every history)
+        self.class_liveness = class_liveness
+        self.objs = [KIND_MAKERS[kind]() for kind in self.kinds]
         self.ids = [id(o) for o in self.objs]
         self.packs = [get_id_pack(o) for o in self.objs]
         self.packs = [(str(p[0]), p[1], p[2]) for p in self.packs]
@@ -114,6 +139,15 @@ class World:
         self.give_p = self.cb._unbox(brine.load(brine.dump(pg)))
         self.recv_p = self.cb._unbox(brine.load(brine.dump(pr)))
         self.fn_packs = {(str(pg[1][0]), pg[1][1], pg[1][2]): "give", (str(pr[1][0]), pr[1][1], pr[1][2]): "recv"}
+        # a proxy of a run-time class needs its netref class, which `_netref_factory` would fetch with a synchronous
+        # HANDLE_INSPECT round trip; under manual delivery nothing may block, so the harness performs that exchange
+        # up front with the real functions of both ends (`get_methods` = what `_handle_inspect` answers, `class_factory`
+        # = what the requester builds) and leaves the result where `_netref_factory` looks for it
+        from rpyc.lib import get_methods
+        for k, kind in enumerate(self.kinds):
+            if kind == "dynclass":
+                methods = tuple(get_methods(netref.LOCAL_ATTRS, self.objs[k]))
+                self.cb._netref_classes_cache[self.packs[k]] = netref.class_factory(self.packs[k], methods)
 
     # -- helpers used by the application functions
     def _hold(self, xs):
@@ -372,7 +406,8 @@ class World:
         """the owner's application drops its own references; from now on only the connection keeps lent objects"""
         for k, o in enumerate(self.objs):
             try:
-                self.wr[k] = weakref.ref(o)
+                skip = self.kinds[k] in IMMORTAL or (self.kinds[k] == "dynclass" and not self.class_liveness)
+                self.wr[k] = None if skip else weakref.ref(o)
             except TypeError:
                 self.wr[k] = None
         self.objs = [None] * self.n
@@ -401,9 +436,11 @@ class World:
             if a is None:
                 continue
             lent = self.packs[k] in self.ca._local_objects._dict
+            if a and not lent:
+                a = self.alive_after_gc(k)
             if a != lent:
-                self.err.append("%s: object %d is %s but %s the owner's table" % (
-                    where, k, "alive" if a else "dead", "in" if lent else "not in"))
+                self.err.append("%s: object %d (%s) is %s but %s the owner's table" % (
+                    where, k, self.kinds[k], "alive" if a else "dead", "in" if lent else "not in"))
 
     def teardown(self):
         try:
@@ -510,7 +547,7 @@ def final_phase(w, run_op, n, close_side):
     w.check_alive_iff_lent("after the owner's application forgot its objects")
     for k in sorted(reach):
         if w.alive(k) is False:
-            w.err.append("object %d died while the peer could still reach it" % k)
+            w.err.append("object %d (%s) died while the peer could still reach it" % (k, w.kinds[k]))
     before = len(w.back_log)
     used = len(w.held)
     closing_phase(w, run_op)
@@ -518,9 +555,9 @@ def final_phase(w, run_op, n, close_side):
         w.err.append("a proxy used at the end did not reach its own object: %r" % (w.back_log[before:],))
     for k in range(n):
         if w.packs[k] in w.ca._local_objects._dict:
-            w.err.append("object %d still in the owner's table after everything was dropped and delivered" % k)
+            w.err.append("object %d (%s) still in the owner's table after everything was dropped and delivered" % (k, w.kinds[k]))
         if w.alive_after_gc(k):
-            w.err.append("object %d not collectable after everything was dropped and delivered" % k)
+            w.err.append("object %d (%s) not collectable after everything was dropped and delivered" % (k, w.kinds[k]))
     run_op(["close", close_side])
     for name, conn in (("A", w.ca), ("B", w.cb)):
         if conn._local_objects._dict or conn._proxy_cache._dict:
@@ -528,10 +565,10 @@ def final_phase(w, run_op, n, close_side):
                 name, len(conn._local_objects._dict), len(conn._proxy_cache._dict)))
 
 
-def run_history(ops, n=N_OBJS, gen=None, length=0, final=True, close_side="A"):
+def run_history(ops, n=N_OBJS, gen=None, length=0, final=True, close_side="A", kinds=None, class_liveness=True):
     """run a history on the real code. `ops` fixed prefix; then `gen(world)` supplies up to `length` more ops.
     Returns (ops actually run, snapshots, real-only findings, world stats)."""
-    w = World(n)
+    w = World(n, kinds, class_liveness)
     done, snaps = [], []
 
     class Abort(Exception):
@@ -658,7 +695,10 @@ def nontrivial(snaps):
 
 def correspondence(ctx):
     c = Corr()
-    c.rule = ("histories over 3 lent objects (set, list, function) on two real connections with manual delivery: a fixed "
+    c.rule = ("histories over 3 lent objects on two real connections with manual delivery; what is lent rotates over palettes "
+              "of instances (set, list, dict, function), builtin TYPE objects (list, dict: id pack with instance id 0) and "
+              "classes created at run time (their netref class is prepared with the real get_methods/class_factory instead "
+              "of the blocking INSPECT round trip; one baton-mode scenario per run does the real round trip): a fixed "
               "corpus (the crossing race both ways, multi-box, hand-back dropped in flight, result as only holder, "
               "disabled ops, close with traffic in flight), ALL histories of enabled ops up to a depth over a 1-object "
               "and a 2-object alphabet, and seeded random histories (length 8..40, shapes: alone, several, nested tuples, "
@@ -671,13 +711,17 @@ def correspondence(ctx):
     t0 = time.time()
     try:
         for i, ops in enumerate(CORPUS):
-            done, snaps, errs = run_history(ops, final=not any(o[0] == "close" for o in ops), close_side="AB"[i % 2])
-            cases.append((done, snaps, errs, "corpus", N_OBJS))
+            for kinds in PALETTES[N_OBJS]:
+                done, snaps, errs = run_history(ops, final=not any(o[0] == "close" for o in ops), close_side="AB"[i % 2],
+                                                kinds=kinds)
+                cases.append((done, snaps, errs, "corpus", N_OBJS, kinds))
 
         def emit_for(n, tag):
             def emit(prefix):
-                done, snaps, errs = run_history(prefix, n=n, close_side="AB"[len(cases) % 2])
-                cases.append((done, snaps, errs, tag, n))
+                kinds = palette(n, len(cases))
+                done, snaps, errs = run_history(prefix, n=n, close_side="AB"[(len(cases) // 7) % 2], kinds=kinds,
+                                                class_liveness=len(cases) % 8 == 0)
+                cases.append((done, snaps, errs, tag, n, kinds))
             return emit
         d1, d2 = ctx.budget((5, 5), (7, 6))
         n1, full1 = exhaustive(1, d1, ALPHABET_1, emit_for(1, "exhaustive-1obj"), t0 + ctx.budget(30, 400))
@@ -685,29 +729,32 @@ def correspondence(ctx):
         c.extra["exhaustive_1obj"] = dict(depth=d1, histories=n1, complete=full1)
         c.extra["exhaustive_2obj"] = dict(depth=d2, histories=n2, complete=full2)
         n_rand = ctx.budget(2000, 40000)
-        rand_deadline = time.time() + ctx.budget(20, 420)
+        rand_deadline = time.time() + ctx.budget(25, 420)
         done_rand = 0
         for i in range(n_rand):
             if time.time() > rand_deadline:
                 break
             rr = r.fork("h%d" % i)
             length = rr.range(8, 40)
+            kinds = palette(N_OBJS, i // 2)
             done, snaps, errs = run_history([], gen=lambda w: random_op(rr, w, N_OBJS), length=length,
-                                            close_side="AB"[i % 2])
-            cases.append((done, snaps, errs, "random", N_OBJS))
+                                            close_side="AB"[i % 2], kinds=kinds, class_liveness=i % 8 == 0)
+            cases.append((done, snaps, errs, "random", N_OBJS, kinds))
             done_rand += 1
         c.extra["random_histories"] = done_rand
     finally:
         pass
-    lines = [model_line(done, n) for done, _s, _e, _t, n in cases]
+    lines = [model_line(done, n) for done, _s, _e, _t, n, _k in cases]
     try:
         outs = run_driver(lines, exe="drv_box")
     except DriverError as ex:
         c.error = str(ex)
         return c
-    for (done, snaps, errs, tag, n), got in zip(cases, outs):
+    for (done, snaps, errs, tag, n, kinds), got in zip(cases, outs):
         model_snaps = got.split(" | ")
         c.count("histories:" + tag)
+        for kind in kinds:
+            c.count("lent:" + kind)
         c.count("ops", len(done))
         for o in done:
             c.count("op:" + o[0])
@@ -725,7 +772,7 @@ def correspondence(ctx):
         if bad is None and errs:
             bad = dict(step=-1, impl="; ".join(errs)[:400], model="(statement-level observation; the model predicts none)")
         if bad:
-            bad["case"] = dict(kind="history", n=n, ops=done)
+            bad["case"] = dict(kind="history", n=n, ops=done, kinds=kinds)
             c.disagreements.append(bad)
         else:
             if nontrivial(snaps):
@@ -733,16 +780,83 @@ def correspondence(ctx):
             if len(c.samples) < 10 and (tag == "corpus" or c.evaluations % 1013 < 30):
                 c.samples.append(dict(tag=tag, history=" ; ".join(op_text(o) for o in done)[:300], final=snaps[-1][:160],
                                       before_closing=snaps[max(0, len(snaps) - 12)][:160]))
+    # the real INSPECT round trip for a run-time class (baton mode; no model side)
+    c.count("extra:dynclass-with-real-inspect")
+    c.evaluations += 1
+    try:
+        extra = extra_dynclass_baton()
+    except Exception as ex:  # noqa
+        extra = ["the baton-mode class scenario could not run: %r" % (ex,)]
+    for e in extra:
+        c.disagreements.append(dict(case=dict(kind="extra", name="dynclass-baton"), impl=e,
+                                    model="(statement-level observation; the model predicts none)"))
     c.exhaustive = bool(full1 and full2)
     return c
 
 
+def extra_dynclass_baton():
+    """lend a class created at run time with the REAL synchronous HANDLE_INSPECT round trip (side B served by its own
+    thread), then also a builtin type and an instance of the class; drop the proxies; after the notices were processed
+    the owner's table must not hold them and the class must be collectable.  Real code only."""
+    import simnet
+    from rpyc.core import brine
+    from rpyc.lib import get_id_pack
+    errs = []
+    net = simnet.Net()
+    with net.installed():
+        ca, cb = net.connect_pair(compress=False)
+        try:
+            held = []
+
+            def sink(*xs):
+                held.append(xs)
+                return len(held)
+
+            def drop():
+                del held[:]
+
+            def ping():
+                return None
+            sink_p, drop_p, ping_p = [ca._unbox(brine.load(brine.dump(cb._box(f)))) for f in (sink, drop, ping)]
+            Dyn = type("Dyn", (object,), {"x": 1})
+            inst = Dyn()
+            things = {"run-time class": Dyn, "builtin type": list, "instance of the run-time class": inst}
+            packs = dict((name, tuple(get_id_pack(o))) for name, o in things.items())
+            packs = dict((name, (str(pk[0]), pk[1], pk[2])) for name, pk in packs.items())
+            sink_p(Dyn, (list, Dyn), inst)
+            sink_p(Dyn)
+            for name, pk in packs.items():
+                if pk not in ca._local_objects._dict:
+                    errs.append("a lent %s is not in the owner's table while the peer holds its proxy" % name)
+            wr = weakref.ref(Dyn)
+            del Dyn, inst, things
+            gc.collect()
+            if wr() is None:
+                errs.append("a lent run-time class died although the peer holds a proxy of it")
+            drop_p()
+            ping_p()
+            ping_p()
+            for name, pk in packs.items():
+                if pk in ca._local_objects._dict:
+                    errs.append("a %s is still in the owner's table after the peer dropped every proxy and all release "
+                                "notices were processed" % name)
+            gc.collect()
+            if wr() is not None:
+                errs.append("a lent run-time class is not collectable after the peer dropped every proxy")
+        except Exception as ex:  # noqa
+            errs.append("the baton-mode class scenario raised %s: %s" % (type(ex).__name__.split(".")[-1], str(ex)[:100]))
+        finally:
+            sink_p = drop_p = ping_p = None
+            net.shutdown([ca])
+    return errs
+
+
 # ---------------------------------------------------------------------------------------------- direct oracle
-def oracle_history(ops, n=N_OBJS, close_side="A"):
+def oracle_history(ops, n=N_OBJS, close_side="A", kinds=None):
     """the property statement evaluated on the real code for one history; None if it holds, else what failed"""
     try:
         has_close = any(o[0] == "close" for o in ops)
-        done, snaps, errs = run_history(ops, n=n, final=not has_close, close_side=close_side)
+        done, snaps, errs = run_history(ops, n=n, final=not has_close, close_side=close_side, kinds=kinds)
         # a request the peer made through a live proxy must never be answered with an exception
         for o, s in zip(done, snaps):
             out = s.split(" ", 1)[0]
@@ -782,55 +896,68 @@ def oracle_search(ctx, corr, broken):
     deadline = time.time() + ctx.budget(60, 600)
     r = Rng(ctx.seed).fork("c10-search")
 
-    def found(ops, n, msg):
-        ops = shrink(ops, n, lambda cand: oracle_history(cand, n) is not None)
-        msg = oracle_history(ops, n) or msg
+    def found(ops, n, msg, kinds):
+        ops = shrink(ops, n, lambda cand: oracle_history(cand, n, kinds=kinds) is not None)
+        msg = oracle_history(ops, n, kinds=kinds) or msg
         sig = "c10:" + msg.split(";")[0].split(":")[0][:60]
         if sig in getattr(ctx, "known_signatures", set()):
             return None
-        return dict(kind="history", n=n, ops=ops), msg, sig
+        return dict(kind="history", n=n, ops=ops, kinds=kinds), msg, sig
     # 1. disagreeing cases
     for d in corr.disagreements[:60]:
         case = d.get("case") or {}
+        if case.get("kind") == "extra":
+            errs = extra_dynclass_baton()
+            if errs and "c10:dynclass-baton" not in getattr(ctx, "known_signatures", set()):
+                return dict(kind="extra", name="dynclass-baton"), "; ".join(errs), "c10:dynclass-baton"
+            continue
         ops = strip_closing(case.get("ops") or [])
         n = case.get("n", N_OBJS)
+        kinds = case.get("kinds")
         try:
-            msg = oracle_history(ops, n)
+            msg = oracle_history(ops, n, kinds=kinds)
         except Exception as ex:  # noqa
             msg = None
         if msg:
-            res = found(ops, n, msg)
+            res = found(ops, n, msg, kinds)
             if res:
                 return res
         if time.time() > deadline:
             return None
     # 2. boundary corpus
     for ops in CORPUS:
-        msg = oracle_history(ops)
-        if msg:
-            res = found(ops, N_OBJS, msg)
-            if res:
-                return res
+        for kinds in PALETTES[N_OBJS]:
+            msg = oracle_history(ops, kinds=kinds)
+            if msg:
+                res = found(ops, N_OBJS, msg, kinds)
+                if res:
+                    return res
+    errs = extra_dynclass_baton()
+    if errs and "c10:dynclass-baton" not in getattr(ctx, "known_signatures", set()):
+        return dict(kind="extra", name="dynclass-baton"), "; ".join(errs), "c10:dynclass-baton"
     # 3. fresh histories
     i = 0
     while time.time() < deadline:
         rr = r.fork("s%d" % i)
         i += 1
-        done, snaps, errs = run_history([], gen=lambda w: random_op(rr, w, N_OBJS), length=rr.range(6, 30))
+        kinds = palette(N_OBJS, i)
+        done, snaps, errs = run_history([], gen=lambda w: random_op(rr, w, N_OBJS), length=rr.range(6, 30), kinds=kinds)
         ops = strip_closing(done)
-        msg = oracle_history(ops)
+        msg = oracle_history(ops, kinds=kinds)
         if msg:
-            res = found(ops, N_OBJS, msg)
+            res = found(ops, N_OBJS, msg, kinds)
             if res:
                 return res
     return None
 
 
 def replay(case):
-    ops, n = case["ops"], case.get("n", N_OBJS)
+    if case.get("kind") == "extra":
+        return dict(case=case, implementation=extra_dynclass_baton() or "holds")
+    ops, n, kinds = case["ops"], case.get("n", N_OBJS), case.get("kinds")
     has_close = any(o[0] == "close" for o in ops)
-    done, snaps, errs = run_history(ops, n=n, final=not has_close)
+    done, snaps, errs = run_history(ops, n=n, final=not has_close, kinds=kinds)
     model = run_driver([model_line(done, n)], exe="drv_box")[0].split(" | ")
     return dict(case=case, ops_run=[op_text(o) for o in done], implementation=snaps, model=model,
                 first_difference=next((i for i, (a, b) in enumerate(zip(snaps, model)) if a != b), None),
-                oracle=oracle_history(ops, n) or "holds")
+                lent=kinds or palette(n, 0), oracle=oracle_history(ops, n, kinds=kinds) or "holds")
